@@ -344,3 +344,129 @@ def _tf_build(d):
     return {"self": TransformationsFilter(**d["opts"]), "font": f, "glyphSet": _GlyphSet.from_layer(f)}
 
 CONTRACTS["ufo2ft.filters.transformations:TransformationsFilter.set_context"].runtime = Runtime(_tf_cases, _tf_build)
+
+# =====================================================================================================
+# propagateAnchors._get_anchor_data / _adjust_anchors: an anchor lands where the base's anchor is carried by the
+# component's FULL affine map (incl. the shear terms xy / yx), stored under the right name.
+
+cls("C15_AComponent", fields={"baseGlyph": STR, **{"t_" + k: REAL for k in _T6}},
+    derived={"transformation": lambda ex, st, self: Val(PYOBJ, None, tuple(ex.read_field(st, self, "t_" + k) for k in _T6), True)},
+    views={"t_" + k: (lambda i: (lambda o: o.transformation[i]))(i) for i, k in enumerate(_T6)},
+    notes="component: baseGlyph + the six numbers of its transformation")
+_POINT = Tuple(REAL, REAL)
+_AD = Dict(STR, _POINT)
+
+
+def _carried(c, a):
+    """(x, y) of anchor `a` under component `c`'s full affine map"""
+    return f"({c}.t_xx * {a}.x + {c}.t_yx * {a}.y + {c}.t_dx, {c}.t_xy * {a}.x + {c}.t_yy * {a}.y + {c}.t_dy)"
+
+
+def _first(c, body):
+    """`body(m)` holds for the FIRST anchor named anchor_name of component c's base glyph"""
+    A = f"glyphSet.glyphs[{c}.baseGlyph].anchors"
+    return f"any({A}[m].name == anchor_name and all({A}[q].name != anchor_name for q in range(m)) and {body.format(a=A + '[m]')} for m in range(len({A})))"
+
+
+def _has(c):
+    return f"any(a.name == anchor_name for a in glyphSet.glyphs[{c}.baseGlyph].anchors)"
+
+
+_OTHERS = "all(implies(k != {names}, k in old(anchor_data) and anchor_data[k] == old(anchor_data)[k]) for k in anchor_data) and all(k in anchor_data for k in old(anchor_data))"
+
+def _gad_loops(extra):
+    return {"for anchor in glyphSet[component.baseGlyph].anchors": Loop(index="mi", seq="AS", invariants={"none-before": "all(AS[q].name != anchor_name for q in range(mi))", **extra})}
+
+
+def _is_first(c, anchor):
+    """`anchor` is the FIRST anchor named anchor_name of component c's base glyph"""
+    A = f"glyphSet.glyphs[{c}.baseGlyph].anchors"
+    return f"any({A}[m] == {anchor} and {A}[m].name == anchor_name and all({A}[q].name != anchor_name for q in range(m)) for m in range(len({A})))"
+
+
+def _views_glyphs(o):
+    from pyvc.rt import Proxy
+
+    return {n: Proxy(g, CLASSES["C15_Glyph"]) for n, g in o.items()}
+
+
+CLASSES["C15_GlyphSet"].views["glyphs"] = _views_glyphs
+CLASSES["C15_Glyph"].views.update({"anchors": lambda o: list(o.anchors), "ncontours": lambda o: len(o)})
+
+_c0 = Val(Ref("C15_AComponent"), z3.Const("comp0", T.RefSort))
+_c1 = Val(Ref("C15_AComponent"), z3.Const("comp1", T.RefSort))
+
+# (a) ONE base component (the common case: a composite over one base glyph)
+contract(
+    "ufo2ft.filters.propagateAnchors:_get_anchor_data",
+    name="one-component",
+    props=["C15"],
+    params={"anchor_data": _AD, "glyphSet": Ref("C15_GlyphSet"), "components": Const([_c0]), "anchor_name": STR},
+    modifies=["anchor_data"],
+    requires=["components[0].baseGlyph in glyphSet.glyphs"],  # callers only pass components whose base was found in the glyph set
+    ensures={
+        "carried-by-full-matrix": f"implies({_has('components[0]')}, anchor_name in anchor_data and " + _first("components[0]", "anchor_data[anchor_name] == " + _carried("components[0]", "{a}")) + ")",
+        "nothing-else-changes": _OTHERS.format(names="anchor_name"),
+        "absent-anchor-adds-nothing": f"implies(not {_has('components[0]')}, anchor_name in anchor_data == (anchor_name in old(anchor_data)))",
+    },
+    canaries={"translation-only": f"implies({_has('components[0]')}, " + _first("components[0]", "anchor_data[anchor_name] == ({a}.x + components[0].t_dx, {a}.y + components[0].t_dy)") + ")"},
+    locals={"anchors": List(Tuple(Ref("C15_Anchor"), Ref("C15_AComponent")))},
+    loops=_gad_loops({"nothing-found-yet": "len(anchors) == 0"}),
+)
+
+# (b) TWO base components: both carry the anchor -> numbered ligature anchors name_1, name_2, each under ITS component's map;
+#     exactly one carries it -> plain name under that component's map
+_N1, _N2 = "anchor_name + '_1'", "anchor_name + '_2'"
+contract(
+    "ufo2ft.filters.propagateAnchors:_get_anchor_data",
+    name="two-components",
+    props=["C15"],
+    params={"anchor_data": _AD, "glyphSet": Ref("C15_GlyphSet"), "components": Const([_c0, _c1]), "anchor_name": STR},
+    modifies=["anchor_data"],
+    requires=["components[0].baseGlyph in glyphSet.glyphs", "components[1].baseGlyph in glyphSet.glyphs", "components[0] != components[1]"],
+    ensures={
+        "both-numbered": f"implies({_has('components[0]')} and {_has('components[1]')}, {_N1} in anchor_data and {_N2} in anchor_data and "
+        + _first("components[0]", f"anchor_data[{_N1}] == " + _carried("components[0]", "{a}")) + " and "
+        + _first("components[1]", f"anchor_data[{_N2}] == " + _carried("components[1]", "{a}")) + ")",
+        "only-first": f"implies({_has('components[0]')} and not {_has('components[1]')}, anchor_name in anchor_data and "
+        + _first("components[0]", "anchor_data[anchor_name] == " + _carried("components[0]", "{a}")) + ")",
+        "only-second": f"implies(not {_has('components[0]')} and {_has('components[1]')}, anchor_name in anchor_data and "
+        + _first("components[1]", "anchor_data[anchor_name] == " + _carried("components[1]", "{a}")) + ")",
+        "nothing-else-changes": f"all(implies(k != anchor_name and k != {_N1} and k != {_N2}, k in old(anchor_data) and anchor_data[k] == old(anchor_data)[k]) for k in anchor_data) and all(k in anchor_data for k in old(anchor_data))",
+    },
+    canaries={"never-numbered": f"not ({_N1} in anchor_data) or {_N1} in old(anchor_data)"},
+    locals={"anchors": List(Tuple(Ref("C15_Anchor"), Ref("C15_AComponent")))},
+    loops=_gad_loops({
+        "first-base": "implies(component == components[0], len(anchors) == 0)",
+        "second-base": "implies(component == components[1], len(anchors) <= 1 and (len(anchors) == 1) == " + _has("components[0]")
+        + " and implies(len(anchors) == 1, anchors[0][1] == components[0] and " + _is_first("components[0]", "anchors[0][0]") + "))",
+    }),
+)
+
+_HASMARK = "any(b.name == '_' + {a}.name for b in glyphSet.glyphs[component.baseGlyph].anchors)"
+contract(
+    "ufo2ft.filters.propagateAnchors:_adjust_anchors",
+    props=["C15"],
+    params={"anchor_data": _AD, "glyphSet": Ref("C15_GlyphSet"), "component": Ref("C15_AComponent")},
+    modifies=["anchor_data"],
+    requires=["component.baseGlyph in glyphSet.glyphs"],
+    ensures={
+        # never adds or removes a name ...
+        "same-names": "all(k in old(anchor_data) for k in anchor_data) and all(k in anchor_data for k in old(anchor_data))",
+        # ... a value only changes to where the mark component carries its own base anchor of that name (mark must have `_name` too)
+        "moved-only-to-carried-position": "all(anchor_data[k] == old(anchor_data)[k] or any(a.name == k and " + _HASMARK.format(a="a")
+        + " and anchor_data[k] == " + _carried("component", "a") + " for a in glyphSet.glyphs[component.baseGlyph].anchors) for k in anchor_data)",
+    },
+    canaries={"never-moves": "all(anchor_data[k] == old(anchor_data)[k] for k in anchor_data)"},
+    loops={
+        "for anchor in glyph.anchors": Loop(
+            index="m0", seq="AS",
+            invariants={
+                "same-names": "all(k in AD0 for k in anchor_data) and all(k in anchor_data for k in AD0)",
+                "moved": "all(anchor_data[k] == AD0[k] or any(AS[q].name == k and " + _HASMARK.format(a="AS[q]")
+                + " and anchor_data[k] == " + _carried("component", "AS[q]") + " for q in range(m0)) for k in anchor_data)",
+            },
+        )
+    },
+    ghost_vars={"AD0": (_AD, "anchor_data")},
+)
